@@ -148,7 +148,7 @@ impl SkipElem for Option<i32> {
 
 fn skip_one<T: SkipElem>(cfg: &Cfg, rep: &mut Report, rng: &mut Lcg) where T::NotNan: Ord + Clone + std::fmt::Debug {
     let al = T::alpha();
-    let shapes: Vec<Vec<usize>> = if cfg.thorough { vec![vec![0], vec![1], vec![2], vec![3], vec![4], vec![2, 2], vec![2, 3], vec![0, 2], vec![2, 2, 2]] } else { vec![vec![0], vec![1], vec![2], vec![3], vec![2, 2], vec![0, 2], vec![2, 1, 2]] };
+    let shapes: Vec<Vec<usize>> = if cfg.thorough { vec![vec![0], vec![1], vec![2], vec![3], vec![4], vec![2, 2], vec![2, 3], vec![0, 2], vec![2, 0], vec![2, 0, 3], vec![2, 2, 2]] } else { vec![vec![0], vec![1], vec![2], vec![3], vec![2, 2], vec![0, 2], vec![2, 0], vec![2, 1, 2]] };
     for shape in shapes {
         let size: usize = shape.iter().product();
         let ncodes = if size <= 4 { al.len().pow(size as u32) } else { 300 };
@@ -188,7 +188,17 @@ fn skip_one<T: SkipElem>(cfg: &Cfg, rep: &mut Report, rng: &mut Lcg) where T::No
                 match r { Err(m) => bad.push(format!("panic: {}", m)), Ok(b) => bad.extend(b) }
                 // per-axis forms
                 for ax in 0..shape.len() {
-                    if shape.iter().enumerate().any(|(i, d)| i != ax && *d == 0) { continue; }
+                    if shape.iter().enumerate().any(|(i, d)| i != ax && *d == 0) {
+                        // no lanes at all: the skip-NaN quantile must behave like the plain one (Ok with an empty result of the
+                        // reduced shape when the chosen axis is non-empty, EmptyInput when it is empty)
+                        if shape[ax] > 0 {
+                            let mut rl6 = Relayout::new(&base, lay, al[1].clone());
+                            let r6 = guarded(|| rl6.view_mut().quantile_axis_skipnan_mut(Axis(ax), n64(0.5), &Lower).map(|a| a.shape().to_vec()));
+                            let mut want_shape = shape.clone(); want_shape.remove(ax);
+                            match r6 { Ok(Ok(sh)) if sh == want_shape => {}, other => bad.push(format!("quantile_axis_skipnan_mut on an array without lanes (axis {} of shape {:?}): {:?}, the plain quantile gives Ok with shape {:?}", ax, shape, other, want_shape)) }
+                        }
+                        continue;
+                    }
                     let lanes: Vec<Vec<Option<i64>>> = v.lanes(Axis(ax)).into_iter().map(|l| l.iter().map(|x| x.key()).collect()).collect();
                     let r = guarded(|| {
                         let mut bad: Vec<String> = vec![];
